@@ -261,7 +261,7 @@ pub fn split_buffered<const OFF: usize>() {
     }
     assert!(canaries_ok(&mem), "[C04] nothing outside the supplied buffer is touched");
     kani::cover!(OFF == 0 || OFF == CAP || (hl > 0 && dl > 0), "header and data committed together");
-    kani::cover!(n1 > CAP - OFF, "data write refused for lack of space");
+    kani::cover!(OFF == 0 || n1 > CAP - OFF, "data write refused for lack of space");
     kani::cover!(OFF == CAP || (a > 0 && b > 0 && dl >= a + b), "two-slice vectored write accepted");
     kani::cover!(OFF == CAP || (a > 0 && b > 0 && a + b > CAP - OFF - (if n1 <= CAP - OFF { n1 } else { 0 }) && a <= CAP - OFF - (if n1 <= CAP - OFF { n1 } else { 0 })),
         "vectored write refused although its first slice would fit");
